@@ -15,6 +15,7 @@ WORK = os.path.join(ROOT, "work")
 EVID = os.path.join(ROOT, "evidence")
 REPLAYS = os.path.join(EVID, "replays")
 NCPU = min(16, os.cpu_count() or 4)
+REPO = os.environ.get("RSV_REPO", "/repo")  # only trial copies (tools/matrix.sh) point this elsewhere
 
 FEATURES = {"tracing": "f_tracing", "metrics": "f_metrics", "test-utils": "f_testutils", "deadlock-detection": "f_deadlock"}
 ALL = "tracing+metrics+test-utils+deadlock-detection"
@@ -267,7 +268,7 @@ def gen_job(agg, job, tier, seed):
         t = time.time()
         proj = os.path.join(WORK, prop, f"proj{rnd}")
         os.makedirs(os.path.dirname(proj), exist_ok=True)
-        rc, out, err = run_proc(["python3", os.path.join(ROOT, "gen", "macro_corpus.py"), "--seed", str(seed * 131 + rnd), "--actors", str(actors), "--out", proj], timeout=120)
+        rc, out, err = run_proc(["python3", os.path.join(ROOT, "gen", "macro_corpus.py"), "--seed", str(seed * 131 + rnd), "--actors", str(actors), "--out", proj, "--repo", REPO], timeout=120)
         if rc != 0:
             agg.inconclusive.append(f"corpus generator failed: {err[-300:]}")
             return
